@@ -209,3 +209,78 @@ func VH_C05_builtins(vm *VM, inst int, quick bool) {
 		reach("c05/returned", true)
 	}
 }
+
+// ---- composition: a term built by one predicate is handed to another ----
+//
+// The matrix above gives every predicate fresh argument terms. Terms that built-ins construct have other
+// representations (string values, lists with a known prefix and an open tail, nested ones); this family feeds every
+// producer's result to every consumer.
+
+var c05Producers = []string{
+	"L = [a, b]",
+	"L = \"ab\"",
+	"L = '.'(a, '.'(b, []))",
+	"L = [a|T0], T0 = [b]",
+	"atom_chars(ab, L)",
+	"atom_codes(ab, L)",
+	"append([a], [b], L)",
+	"append(\"a\", \"b\", L)",
+	"append(\"ab\", _, L)",
+	"atom_chars(ab, Cs0), append(Cs0, _, L)",
+	"append('.'(a, '.'(b, [])), _, L)",
+	"append([a, b], [c], L0), append(L0, _, L)",
+	"append([a], T1, L), T1 = \"b\"",
+	"X0 = f(a, b), X0 =.. [_|L]",
+	"findall(E0, (E0 = a ; E0 = b), L)",
+	"copy_term([a, B0|B0], L)",
+	"length(L, 2)",
+	"sort([b, a, b], L)",
+	"L = [a, b|_]",
+	"L = f(\"ab\", [a|_], g(_))",
+	"atom_length(abc, L)",
+	"L = 'hello world'",
+	"L = 1.5",
+	"L = \"\"",
+}
+
+var c05Consumers = []string{
+	"assertz(cmp_p(L))", "asserta(cmp_p(L, L))", "assertz((cmp_q(X) :- X = L))", "assertz((cmp_r(L) :- true))", "assertz((cmp_s :- L))", "retract(cmp_p(L))",
+	"retract((cmp_r(L) :- _))", "clause(cmp_r(L), _)", "atom_chars(_, L)", "atom_codes(_, L)", "atom_chars(L, _)", "number_codes(_, L)", "number_chars(_, L)",
+	"atom_length(L, _)", "length(L, _)", "sort(L, _)", "msort(L, _)", "keysort(L, _)", "sort(0, @>=, L, _)", "L =.. _", "_ =.. L", "copy_term(L, _)",
+	"write(L)", "writeq(L)", "write_canonical(L)", "write_term(L, [quoted(true), ignore_ops(true)])", "term_variables(L, _)", "functor(L, _, _)",
+	"arg(1, L, _)", "arg(2, L, _)", "sub_atom(abc, _, _, _, L)", "atom_concat(L, _, abc)", "findall(X, once(member(X, L)), _)", "append(L, [z], _)", "append(_, L, [a, b, c])",
+	"nth0(0, L, _)", "nth1(_, L, b)", "select(a, L, _)", "X is L", "X is L + 1", "compare(_, L, [a])", "L == [a, b]", "L @< [a, c]", "ground(L)", "acyclic_term(L)",
+	"subsumes_term(L, [a, b])", "subsumes_term([_|_], L)", "unify_with_occurs_check(L, [a|_])", "L = [_, _|_]", "catch(throw(L), B, true)", "call(L)", "\\+ L",
+	"findall(L, true, _)", "bagof(X, once(member(X, L)), _)", "setof(X-Y, once(member(X-Y, L)), _)", "op(200, xfx, L)", "set_prolog_flag(double_quotes, L)", "char_code(L, _)",
+	"phrase(L, [a, b])", "phrase(cmp_g, L)", "phrase(cmp_g, L, _)", "expand_term((cmp_h --> L), _)", "atom_to_term_missing(L)", "consult(L)", "number_codes(L, _)",
+	"between(1, L, _)", "succ(L, _)", "char_conversion(L, a)", "current_op(_, _, L)", "current_prolog_flag(L, _)", "stream_property(_, alias(L))", "put_char(L)", "nl(L)", "close(L)",
+	"read_term(L, _, [])", "write_term(a, L)", "halt_missing(L)",
+}
+
+// VH_C05_compose: inst = producer; the consumer by case split.
+func VH_C05_compose(vm *VM, inst int) {
+	vm.doubleQuotes = doubleQuotesChars
+	ok, err := Assertz(vm, atomIf.Apply(NewAtom("cmp_g").Apply(NewVariable(), NewVariable()), NewAtom("true")), Success, nil).Force(context.Background())
+	verify(ok && err == nil, "harness: setup failed")
+	goal := c05Producers[inst] + ", " + c05Consumers[choice("consumer", len(c05Consumers))] + "."
+	note("goal", goal)
+	q, _, perr := vParseQuery(vm, goal)
+	verify(perr == nil, "harness: goal does not parse: "+goal)
+	r := vRunImplNoDrop(vm, q, 2)
+	if r != nil {
+		msg := c05CheckError(r)
+		verify(msg == "", "a composed goal: "+msg)
+	}
+	reach("c05/compose", true)
+}
+
+// vRunImplNoDrop runs goal for at most max answers and returns its error (no path is dropped on resource errors:
+// they are legitimate outcomes here).
+func vRunImplNoDrop(vm *VM, goal Term, max int) error {
+	n := 0
+	_, err := Call(vm, goal, func(env *Env) *Promise {
+		n++
+		return Bool(n >= max)
+	}, nil).Force(context.Background())
+	return err
+}
